@@ -165,7 +165,7 @@ Proof. exact pruned_no_traversal. Qed.
    the ignorer, nothing opened *)
 Theorem c14_pruned_entry :
   forall (ign : ignorer) rp mask n ch,
-    ch <> FOther -> prunedb ign (n :: rp) (is_fdir ch) = true ->
+    consulted_kind ch = true -> prunedb ign (n :: rp) (is_fdir ch) = true ->
     scan_child ign rp mask n ch = (EUntracked, [EvIgnore (n :: rp) (is_fdir ch)]).
 Proof. exact pruned_child. Qed.
 
